@@ -8,6 +8,12 @@ PY = "/venv/bin/python"
 
 # id -> (technique, level text, level note, design ref)
 CHECKS = {
+    "C13": (
+        "Hypothesis over style-editing histories with an independent lxml index of (part, container, tag, family, name) as oracle for placement/uniqueness and fingerprinted styles for lookup identity",
+        "On the templates and style-rich samples, generated sequences of insert_style (every family, object or XML string, named/unnamed, automatic/default/common, colliding names), set_table_displayed, add_page_break_style, delete_styles, merge_styles_from and save+reload are judged after every step: no duplicate key beyond the source baseline, documented container, the returned name finds exactly the inserted style (also after reload), generated automatic names are new, merges give the union with the other document winning and leave it unchanged.",
+        "Placement rule taken from the insert_style docstring; lookups under a family+name present in two containers are ambiguous and not judged.",
+        "DESIGN.md 3/C13",
+    ),
     "C14": (
         "Hypothesis over identifier strings rich in XPath/XML-significant characters x every name/id carrier and lookup, with decoy objects carrying near-miss identifiers; oracle = exact XML attribute of the returned object, no exception, also after save+reload",
         "For 18 carriers (tables, styles, bookmarks, reference marks and references, frames, draw pages, variables, user fields, user-defined fields, named ranges, notes, annotations, links, sections, change ids, manifest paths, user-defined metadata) an object is stored under a generated identifier next to decoys; each lookup entry point must return exactly that object and never raise, in memory and after reload.",
